@@ -450,8 +450,16 @@ func (api *API) mapDecodeStructFields(
 				}
 				fieldValue = fieldValue.Elem()
 				fieldType = fieldType.Elem()
+				// an embedded pointer can lead back to the struct itself: the recursion counts as a nesting level
+				if opts.decodeDepth++; opts.decodeDepth > maxDecodeDepth {
+					return ierrors.Errorf("exceeded the maximum nesting depth of %d", maxDecodeDepth)
+				}
 			}
-			if err := api.mapDecodeStructFields(ctx, m, fieldValue, fieldType, opts); err != nil {
+			err := api.mapDecodeStructFields(ctx, m, fieldValue, fieldType, opts)
+			if sField.fType.Kind() == reflect.Ptr {
+				opts.decodeDepth--
+			}
+			if err != nil {
 				return ierrors.Wrapf(err, "can't deserialize embedded struct %s", sField.name)
 			}
 
